@@ -15,10 +15,10 @@ RULE = ("seeded histories over 1-2 tokens with sessions in all five states (RO/R
         "position, create/generate with CKA_PRIVATE/CKA_TOKEN) using live handles, handles kept from before a logout, handles of the OTHER token's logged-in user "
         "(the only case where the per-call access check is the sole guard) and handles found by other sessions. Distinct+non-trivial: (session state, object "
         "private/token, entry point, live/stale handle, outcome class).")
-PROBES = ["neg_probe", "neg_probe_live_handle", "neg_code_checked", "pos_probe_ok", "ro_write_refused", "private_create_refused", "search_hides_private", "search_shows_private", "so_session_probe", "cross_token_probe", "stale_handle_probe", "output_scanned"]
+PROBES = ["default_privacy_checked", "neg_probe", "neg_probe_live_handle", "neg_code_checked", "pos_probe_ok", "ro_write_refused", "private_create_refused", "search_hides_private", "search_shows_private", "so_session_probe", "cross_token_probe", "stale_handle_probe", "output_scanned"]
 DEATH_IS_VIOLATION = ()
 
-ENTRY = ["getattr", "setattr", "copy", "destroy", "find", "encinit", "decinit", "signinit", "verifyinit", "digestkey", "wrap_wkey", "wrap_key", "unwrap", "derive_base", "derive_second", "derive_second", "create", "genkey", "genpair", "copy_priv"]
+ENTRY = ["getattr", "setattr", "copy", "destroy", "find", "encinit", "decinit", "signinit", "verifyinit", "digestkey", "wrap_wkey", "wrap_key", "unwrap", "derive_base", "derive_second", "derive_second", "create", "create_default", "create_default", "genkey", "genpair", "copy_priv"]
 
 class GW(OW):
     def key_objs(self, pid, kinds):
@@ -114,6 +114,13 @@ class GW(OW):
             self.info[new] = {"kind": "generic", "secret": {}}
         elif ep == "create":
             return bool(self.s_create(tid, pid, sess=s))
+        elif ep == "create_default":
+            # CKA_PRIVATE left to the library's default, every object class: whatever the default is, an object created through a session that is no user
+            # session must not be private (the creating session reads CKA_PRIVATE back)
+            ref = self.new_obj(); kind = r.choice(list(objs.KINDS) + ["dsa_params", "dh_params", "dsa_params", "dh_params"])
+            tm, info = objs.make(kind, ref, r, token=r.random() < 0.5, private=False, flags={"omit_private": True}); self.info[ref] = info
+            self.emit({"f": "C_CreateObject", "s": s.ref, "tmpl": tm, "out": ref, "probe": "create_default", "omit_private": True}, tid, ok=False)
+            self.emit({"act": "readattrs", "s": s.ref, "o": ref, "types": [K.CKA_PRIVATE, K.CKA_LABEL], "after_default_create": ref}, tid)
         elif ep == "genkey":
             new = self.new_obj()
             t = [A_bool(K.CKA_TOKEN, r.random() < 0.5), A_bool(K.CKA_PRIVATE, r.random() < 0.6), A_bytes(K.CKA_LABEL, objs.label(new)), A_ulong(K.CKA_VALUE_LEN, 16),
@@ -211,16 +218,18 @@ def check(plan, r):
                     if e[0] in (K.CKA_VALUE, K.CKA_PRIVATE_EXPONENT, K.CKA_PRIME_1, K.CKA_PRIME_2, K.CKA_EXPONENT_1, K.CKA_EXPONENT_2, K.CKA_COEFFICIENT, K.CKA_SUBJECT) and len(e[2]) >= 24:
                         vals.append(e[2])
                 secrets[op["out"]] = vals
+    lastcreate = {}
     for tid, k, op, ret in hist.walk(plan, r):
         pid = pids[tid][k]; P = w.proc(pid)
         f = hist.opname(op); rv = ret.get("rv"); ok = rv == 0
+        if op.get("omit_private") and op.get("out"): lastcreate[op["out"]] = rv
         s = w.sess(pid, op.get("s")) if "s" in op else None
         if s is not None and not op.get("fin"):
             state = w.state_of(pid, s.ref)
             user_sess = state in (K.CKS_RO_USER_FUNCTIONS, K.CKS_RW_USER_FUNCTIONS)
             stn = K.name("CKS", state)
             # ---- objects referenced by this call
-            refs = [(key, op[key]) for key in OBJ_KEYS if isinstance(op.get(key), str) and op[key] in w.objs]
+            refs = [(key, op[key]) for key in OBJ_KEYS if isinstance(op.get(key), str) and op[key] in w.objs] if not f.startswith("@") else []
             hmap = {"o": "ho", "key": "hk", "wkey": "hw", "ukey": "hu", "base": "hb"}
             for key, ref in refs:
                 o = w.objs[ref]
@@ -284,6 +293,12 @@ def check(plan, r):
                     if tk and not s.rw:
                         st("ro_write_refused"); cov.add("create_tok_ro|%s|%s|%s" % (stn, f, K.rvname(rv)))
                         if ok: viols.append(_v("C01.ro_write", "%s created a token object through a read-only session" % f, call=f, op=k, state=stn))
+            if f == "@readattrs" and op.get("after_default_create") and lastcreate.get(op["after_default_create"]) == 0 and not user_sess:
+                st("default_privacy_checked")
+                a = ret.get("attrs", {}).get(str(K.CKA_PRIVATE), {})
+                cov.add("create_default|%s|%s" % (stn, a.get("v", "rv%s" % a.get("rv"))))
+                if a.get("v") != "00":
+                    viols.append(_v("C01.private_created", "C_CreateObject without CKA_PRIVATE through a %s session returned CKR_OK, and the new object %s" % (stn, "is private" if a.get("v") == "01" else "cannot be read by the session that created it (%s)" % K.rvname(a.get("rv"))), call="C_CreateObject", op=k, state=stn, defaulted=True))
             # ---- searches
             if f == "@find" and ok:
                 found = []
@@ -306,6 +321,15 @@ def check(plan, r):
                         miss = [o.ref for o in hidden if o.ref not in [x for x, _ in found] and o.ref not in tainted]
                         if miss: viols.append(_v("C01.entitled_refused", "search in a %s session does not return private objects %s" % (stn, miss), call="C_FindObjects", op=k))
         w.apply(pid, op, ret)
+        if op.get("omit_private") and ok and op.get("out") in w.objs:
+            # CKA_PRIVATE was left to the library: PKCS#11's defaults as SoftHSM implements them (public keys and certificates public, everything else private);
+            # the creating session's read-back, where the plan still has it, overrides this
+            kl = [e for e in op["tmpl"] if e[0] == K.CKA_CLASS]
+            klass_ = int.from_bytes(bytes.fromhex(kl[0][2]), "little") if kl else None
+            w.objs[op["out"]].private = klass_ not in (K.CKO_PUBLIC_KEY, K.CKO_CERTIFICATE)
+        if f == "@readattrs" and op.get("after_default_create") in w.objs:
+            a_ = ret.get("attrs", {}).get(str(K.CKA_PRIVATE), {})
+            if a_.get("v") in ("00", "01"): w.objs[op["after_default_create"]].private = (a_["v"] == "01")
     r.aux["c01"] = (cov, stats)
     return viols[:5]
 
